@@ -15,6 +15,7 @@ import ast
 from fractions import Fraction
 
 NUM, BOOL, STR, VEC, BVEC, OPTNUM = "num", "bool", "str", "vec", "bvec", "optnum"
+CORRMAT = "corrmat"     # np.corrcoef(x, y) before it is indexed
 
 LEAN_KEYWORDS = {
     "at", "from", "fun", "then", "else", "if", "do", "in", "let", "have", "show", "end", "def",
@@ -22,7 +23,7 @@ LEAN_KEYWORDS = {
     "structure", "namespace", "section", "variable", "universe", "theorem", "example", "macro",
     "syntax", "notation", "mutual", "import", "export", "deriving", "extends", "for", "return",
     "unless", "try", "catch", "finally", "private", "protected", "partial", "unsafe", "nomatch",
-    "calc", "using", "sorry", "max", "min",
+    "calc", "using", "sorry", "max", "min", "id",
 }
 
 
@@ -79,7 +80,8 @@ def is_one(node):
 class Ctx(object):
     """Translation context: variable types and special names."""
 
-    def __init__(self, vars=None, self_attrs=None, elementwise=None, agg=None, helpers=None, depth=0):
+    def __init__(self, vars=None, self_attrs=None, elementwise=None, agg=None, helpers=None, depth=0, ext=None):
+        self.ext = ext                          # generator-specific extension: ext(node, ctx) -> (term, type) | None
         self.vars = dict(vars or {})            # python name -> type
         self.self_attrs = dict(self_attrs or {})  # attr -> (lean expr, type)
         self.elementwise = set(elementwise or [])  # names whose subscripts x[I] read as x
@@ -88,7 +90,7 @@ class Ctx(object):
         self.depth = depth                      # inlining depth
 
     def child(self):
-        c = Ctx(self.vars, self.self_attrs, self.elementwise, self.agg, self.helpers, self.depth)
+        c = Ctx(self.vars, self.self_attrs, self.elementwise, self.agg, self.helpers, self.depth, self.ext)
         return c
 
 
@@ -109,6 +111,10 @@ CMPS = {ast.Lt: "lt", ast.LtE: "le", ast.Gt: "gt", ast.GtE: "ge", ast.Eq: "eqb",
 
 def tr_expr(node, ctx):
     """-> (lean term, type)"""
+    if ctx.ext is not None:
+        r = ctx.ext(node, ctx)
+        if r is not None:
+            return r
     if isinstance(node, ast.Constant):
         v = node.value
         if isinstance(v, bool):
@@ -166,6 +172,9 @@ def tr_expr(node, ctx):
         base = dotted(node.value)
         if base in ctx.elementwise:
             return tr_expr(node.value, ctx)
+        cc = tr_corrcoef(node, ctx)
+        if cc is not None:
+            return cc
         raise Untranslatable("subscript")
     if isinstance(node, ast.IfExp):
         c, ct = tr_expr(node.test, ctx)
@@ -175,6 +184,42 @@ def tr_expr(node, ctx):
             raise Untranslatable("if-expression types")
         return "(if %s then %s else %s)" % (c, a, b), at
     raise Untranslatable(type(node).__name__)
+
+
+def tr_corrcoef(node, ctx):
+    """`np.corrcoef(x, y)[1, 0]` (or `[0, 1]`) of two vectors: the library call is the primitive `corrCore`
+    (Model/Corrcoef.lean: covariance sum / root / root, limited to [-1, 1]).  NumPy divides entry [i, j] of the
+    covariance matrix by the deviation of row i and then of row j; `corrCore T a b` divides by the root of a's sum
+    of squares first, so `[1, 0]` of corrcoef(x, y) — the spelling verif uses — is read as `corrCore T x y` up to
+    the order of the two divisions (rounding only), and `[0, 1]` as `corrCore T y x`."""
+    c = node.value
+    if isinstance(c, ast.Name) and ctx.vars.get(c.id) == CORRMAT:      # cc = np.corrcoef(x, y); cc[1, 0]
+        a, b = "(%s).1" % lname(c.id), "(%s).2" % lname(c.id)
+    elif isinstance(c, ast.Call) and dotted(c.func) in ("np.corrcoef", "numpy.corrcoef"):
+        tr_corrcoef_call(c, ctx)                     # argument checks
+        a, b = tr_expr(c.args[0], ctx)[0], tr_expr(c.args[1], ctx)[0]
+    else:
+        return None
+    idx = node.slice
+    if not (isinstance(idx, ast.Tuple) and len(idx.elts) == 2):
+        raise Untranslatable("np.corrcoef(...)[...]: index is not a pair")
+    ij = tuple(const_value(e) for e in idx.elts)
+    if ij == (1, 0):
+        return "(corrCore T %s %s)" % (a, b), NUM
+    if ij == (0, 1):
+        return "(corrCore T %s %s)" % (b, a), NUM
+    raise Untranslatable("np.corrcoef(...)[%s, %s]" % ij)
+
+
+def tr_corrcoef_call(c, ctx):
+    """`np.corrcoef(x, y)` not yet indexed: kept as the pair of its two vectors"""
+    if c.keywords or len(c.args) != 2:
+        raise Untranslatable("np.corrcoef: expected two positional arguments")
+    a, at = tr_expr(c.args[0], ctx)
+    b, bt = tr_expr(c.args[1], ctx)
+    if at != VEC or bt != VEC:
+        raise Untranslatable("np.corrcoef of %s, %s" % (at, bt))
+    return "(%s, %s)" % (a, b), CORRMAT
 
 
 def coerce_num(e, t):
@@ -243,6 +288,16 @@ def tr_compare(node, ctx):
         if at != OPTNUM:
             raise Untranslatable("is None on %s" % at)
         return ("(%s).isNone" if isinstance(op, ast.Is) else "(%s).isSome") % a, BOOL
+    if isinstance(op, (ast.In, ast.NotIn)) and dotted(node.left) in ("np.nan", "numpy.nan") \
+            and isinstance(right, (ast.List, ast.Tuple)) and right.elts:
+        # `np.nan in [x, y, …]`: Python's `in` is `any(np.nan is e or np.nan == e)`.  `np.nan == e` is False for every
+        # float, and a value computed by NumPy (a fresh np.float64) is never the object `np.nan` itself — so for a
+        # list of computed numbers (names / expressions, none of them the literal np.nan) the test is False.
+        items = [tr_expr(e, ctx) for e in right.elts]
+        if all(t == NUM for _, t in items) and not any(dotted(e) in ("np.nan", "numpy.nan") for e in right.elts) \
+                and not any(isinstance(e, ast.Constant) for e in right.elts):
+            return ("false" if isinstance(op, ast.In) else "true"), BOOL
+        raise Untranslatable("np.nan in <list>")
     if isinstance(op, (ast.In, ast.NotIn)):
         a, at = tr_expr(node.left, ctx)
         if at == STR and isinstance(right, (ast.List, ast.Tuple)):
@@ -254,7 +309,10 @@ def tr_compare(node, ctx):
     cn = CMPS.get(type(op))
     if cn is None:
         raise Untranslatable("comparison %s" % type(op).__name__)
-    a, at = coerce_num(*tr_expr(node.left, ctx))
+    left = node.left
+    if cn in ("eqb", "neb") and const_value(left) is not None and const_value(right) is None:
+        left, right = right, left           # normalisation: `0 == x` reads as `x == 0` (== and != are symmetric)
+    a, at = coerce_num(*tr_expr(left, ctx))
     b, bt = coerce_num(*tr_expr(right, ctx))
     if at == NUM and bt == NUM:
         if cn == "neb":
@@ -301,7 +359,7 @@ def inline_helper(fn, node, ctx):
         raise Untranslatable("helper %s: argument list" % fn)
     args = [tr_expr(a, ctx) for a in node.args]
     inner = Ctx(dict(zip(params, [t for _, t in args])), ctx.self_attrs, ctx.elementwise, ctx.agg, ctx.helpers,
-                ctx.depth + 1)
+                ctx.depth + 1, ctx.ext)
     last = None
     for rt in (NUM, BOOL, VEC):
         try:
@@ -315,6 +373,8 @@ def inline_helper(fn, node, ctx):
 
 def tr_call(node, ctx):
     fn = dotted(node.func)
+    if fn in ("np.corrcoef", "numpy.corrcoef"):
+        return tr_corrcoef_call(node, ctx)
     if node.keywords:
         raise Untranslatable("keyword arguments in call to %s" % fn)
     if fn in ctx.helpers:
